@@ -372,9 +372,35 @@ fn check_history(endings: &[Ending], goaway_pos: usize, pool: Option<usize>, see
     let net = sim::new_net(cfg);
     let ctrl;
     let mut ids = Vec::new();
+    let mut late_uni: Vec<u64> = Vec::new();
     {
         let mut n = lock(&net);
         raw::mark_raw(&mut n, CLIENT);
+        // a peer may open other unidirectional streams ahead of its control stream and say nothing
+        // on them yet (or ever): the control stream behind them must be found all the same
+        if rng.chance(1, 3) {
+            rep.count("histories_with_peer_uni_streams_ahead_of_the_control_stream");
+            // one QPACK encoder and one decoder stream at most (a second one is a connection error)
+            let mut qpack_types = vec![0x02u8, 0x03];
+            if rng.bool() {
+                qpack_types.swap(0, 1);
+            }
+            for _ in 0..1 + rng.usize(2) {
+                let u = n.raw_open(CLIENT, false);
+                match rng.below(3) {
+                    0 => rep.count("uni_stream_ahead[silent for ever]"),
+                    1 => {
+                        rep.count("uni_stream_ahead[qpack type at once]");
+                        let t = qpack_types.pop().unwrap();
+                        n.raw_write(CLIENT, u, &[t]);
+                    }
+                    _ => {
+                        rep.count("uni_stream_ahead[type arrives later]");
+                        late_uni.push(u);
+                    }
+                }
+            }
+        }
         ctrl = raw::open_control(&mut n, CLIENT, &[]);
         for _ in endings {
             ids.push(n.raw_open(CLIENT, true));
@@ -431,6 +457,12 @@ fn check_history(endings: &[Ending], goaway_pos: usize, pool: Option<usize>, see
         }
     }
     sched.add_script(main);
+    for u in late_uni {
+        // its own script: the type shows up at a moment the schedule chooses
+        let mut w = crate::refimpl::varint::encode(0x21 + 0x1f * rng.below(1000)).unwrap();
+        w.extend(b"pad");
+        sched.add_script(vec![raw::step_write(CLIENT, u, w)]);
+    }
     for (i, id) in ids.iter().enumerate() {
         let g = gates[i].clone();
         let mut steps = vec![raw::step_custom("wait for release", move |_| *g.lock().unwrap(), |_, _| {})];
